@@ -88,6 +88,10 @@ def run(ctx):
     ctx.ob('C06.r2', F.name, 'the verified loop takes exactly the limit', from_min(takes[0][1].args[1]), at=takes[0][1].span)
     at_ = F.blocks[amb[0][0]].term
     ctx.ob('C06.r2', F.name, 'recorded blocks_count derives from the limit', from_min(at_.args[2]), at=at_.span)
+    ctx.ob('C06.r2', F.name, 'the recorded matched blocks are the result of check_filters_data on the verified prefix',
+           du.from_call(at_.args[3], 'FilterProtocol::check_filters_data'), at=at_.span)
+    ctx.ob('C06.r2', F.name, 'the record is keyed by the message start_number (pinned to min_filtered + 1)',
+           du.from_call(at_.args[1], lambda k: k.endswith('BlockFilters::start_number')), at=at_.span)
     for sb, sspan, lbl in umf + ubn:
         t = F.blocks[sb].term
         ctx.ob('C06.r2', F.name, 'new filtered height (%s) derives from the limit' % lbl, from_min(t.args[1]), at=t.span)
